@@ -61,7 +61,8 @@ def main():
             if os.path.exists(mp):
                 with open(mp, encoding="utf-8") as f:
                     m = json.load(f)
-                items[d] = {"properties": m.get("checks_expected", [m["property"]]), "description": m.get("summary", ""), "patch": os.path.join(root, d, "patch.diff")}
+                items[d] = {"properties": m.get("checks_expected", [m["property"]]), "description": m.get("summary", ""), "patch": os.path.join(root, d, "patch.diff"),
+                            "control_for": ([m["property"]] if m.get("not_reported_by_design") else [])}
     else:
         root = os.path.join(VERIF, "mutants")
         with open(os.path.join(root, "index.json"), encoding="utf-8") as f:
